@@ -60,7 +60,7 @@ def _snapshot(x):
         return x
 
 
-def runtime_check(contract, func, args, L, stats=None, skip_frame=()):
+def runtime_check(contract, func, args, L, stats=None, skip_frame=(), call_guard=None):
     """call the real function under the contract.  Returns ('vacuous'|'ok', result);
     raises ContractFailure naming the failed clause."""
     A = {k: _snapshot(v) for k, v in args.items()}
@@ -77,8 +77,14 @@ def runtime_check(contract, func, args, L, stats=None, skip_frame=()):
         return 'vacuous', None
     allowed = contract.raises(L, A, G)
     try:
-        R = func(**args)
+        if call_guard is not None:
+            with call_guard():
+                R = func(**args)
+        else:
+            R = func(**args)
     except Exception as ex:
+        if type(ex).__name__ == 'CaseTimeout':
+            raise
         name = type(ex).__name__
         if name in allowed and bool(allowed[name]):
             if stats is not None:
